@@ -5,10 +5,13 @@ from pyvc.registry import REG
 import importlib
 mod = importlib.import_module(sys.argv[1]); prop=sys.argv[2]
 import contracts.lammps_table, contracts.potential, contracts.dlpoly_table
+import os
+MUT = os.environ.get('MUT')      # MUT='old=>new'  apply an in-memory mutant to the function(s)
 for q in sys.argv[3:]:
     cands = [c for (f, qn), c in REG.contracts.items() if qn == q and not c.external and f != '<ext>']
     c = REG.get(getattr(mod, 'FILE', ''), q) or (cands[0] if cands else None)
-    ex = symexec.verify(prop, c, track_raises=(c.on_raise is not None or c.raises_when is not None))
+    fi_ = extract.mutant(extract.get_func(c.file, c.qualname), *MUT.split('=>')) if MUT else None
+    ex = symexec.verify(prop, c, track_raises=(c.on_raise is not None or c.raises_when is not None), fi=fi_)
     solve.discharge_all(ex.obls)
     for o in ex.obls:
         if o.result!='proved' or o.solver_s>0.5: print(o.name, o.result, o.backend, round(o.solver_s,3), o.reason or '')
